@@ -90,6 +90,13 @@ class State:
         return s
 
 
+INT_TYS = ('u8', 'u16', 'u32', 'u64', 'u128', 'usize', 'i8', 'i16', 'i32', 'i64', 'i128', 'isize')
+
+
+def _is_int_ty(t):
+    return t in INT_TYS
+
+
 def float_const(c):
     if 'bits' in c:
         bits = int(c['bits'])
@@ -178,7 +185,11 @@ class SymEx:
         _, fid, local, path = ref
         v = st.frames[fid].get(local, ('unk', 'uninit _%d' % local))
         for n in path:
-            v = self.field(st, v, n)
+            if n.startswith('#'):
+                name, vi = n[1:].rsplit('@', 1)
+                v = self.project(st, v, {'downcast': name, 'vi': int(vi)})
+            else:
+                v = self.field(st, v, n)
         return v
 
     def deep(self, st, v, depth=0):
@@ -212,7 +223,7 @@ class SymEx:
             elif isinstance(e, dict) and 'f' in e:
                 path.append(e.get('n') or str(e['f']))
             elif isinstance(e, dict) and 'downcast' in e:
-                pass
+                path.append('#%s@%d' % (e['downcast'], e['vi']))
             else:
                 return ('unk',)
         return ('loc', cur_f, cur_l, tuple(path))
@@ -242,6 +253,7 @@ class SymEx:
         st.effects.append((('unk', 'write'), val))
 
     def _set_path(self, base, path, val):
+        path = [p for p in path if not p.startswith('#')]
         if not path:
             return val
         if base is None or base[0] != 'struct':
@@ -287,7 +299,10 @@ class SymEx:
         if r == 'binop':
             a = self.operand(st, fid, rv['a'])
             b = self.operand(st, fid, rv['b'])
-            return self.binop(rv['op'], a, b)
+            op = rv['op']
+            if op in ('Div', 'Rem') and _is_int_ty(rv['a'].get('ty', '')):
+                op = 'I' + op        # integer (floor) division is not rational division
+            return self.binop(op, a, b)
         if r == 'unop':
             a = self.operand(st, fid, rv['a'])
             if rv['op'] == 'Neg':
@@ -343,6 +358,11 @@ class SymEx:
     def binop(self, op, a, b):
         ov = op.endswith('WithOverflow')
         base = op.replace('WithOverflow', '').replace('Unchecked', '')
+        if base in ('IDiv', 'IRem'):
+            if is_num(a) and is_num(b) and b[1] != 0:
+                q = int(a[1]) // int(b[1]) if base == 'IDiv' else int(a[1]) % int(b[1])
+                return NUM(q)
+            return APP(base.lower(), a, b)
         if base in ('Add', 'Sub', 'Mul', 'Div', 'Rem'):
             if is_num(a) and is_num(b):
                 try:
@@ -499,7 +519,7 @@ class SymEx:
         r = self.model(st, name, declared, args, t)
         if r is not None:
             return [(st, r)]
-        cb = self.f.body(f.get('resolved') or f['fn'])
+        cb = self.f.body_of_fnconst(f)
         if cb is not None and depth < self.max_depth and self.loopfree(cb) and \
                 not any(name.endswith(o) for o in self.opaque):
             self.inlined.add(cb.path)
@@ -554,6 +574,11 @@ class SymEx:
                 return self.deep(st, v)
         if name.endswith(('From<T>>::from', 'Into<U>>::into')):
             return args[0]
+        if name.endswith(('cmp::Ord::min', 'cmp::Ord::max')) or (last in ('min', 'max') and 'Ord' in name):
+            a, b = val(0), val(1)
+            if is_num(a) and is_num(b):
+                return NUM(min(a[1], b[1]) if last == 'min' else max(a[1], b[1]))
+            return APP('i' + last, a, b)
         if name.endswith('UnsafeCell::<T>::get') or name.endswith('UnsafeCell::<T>::raw_get'):
             return args[0]          # pointer to the cell's content == the cell (transparent)
         return None
